@@ -7,7 +7,9 @@ Three checks per case:
      restricted to the most specific tier holding a target-matching rule — tiers computed here from
      the statement (declared shape), matching by the implementation's own match_actions/match_resource;
  (c) metamorphic: inserting rules whose action or resource target does not match, at any position,
-     leaves Guard's decision unchanged."""
+     leaves Guard's decision unchanged;
+ (d) history: the same request on a Guard / compiled function with a past (sibling requests; set_policy on a Guard
+     created with another policy; requests whose evaluation fails, failing collaborators) is answered alike."""
 import asyncio
 import itertools
 
@@ -103,6 +105,126 @@ def reference(policy, env):
             "obligations": out.get("obligations"), "reason": out.get("reason")}, sel
 
 
+# ---- "engines with a past that includes failing evaluations" (added after round 5 of the seeded campaign) ----
+# A request value whose use fails: a detached ORM row / lazily loaded object.  str(), ==, !=, hash() and every
+# attribute access raise EXC.  A request carrying one is legitimate input; its own evaluation may raise to the caller
+# (not judged) — the engine must answer every LATER request by the reference evaluation all the same.
+PAST_EXC = ["RuntimeError", "KeyError", "ValueError", "TypeError", "OSError"]
+PAST_SHAPES = ["type", "id", "attr", "lazy", "unhashable", "role"]
+
+
+def _boom(exc_name):
+    import builtins
+    exc = getattr(builtins, exc_name)
+
+    class Boom:
+        __slots__ = ()
+
+        def _fail(self, *a, **k):
+            raise exc("lazy load failed: instance is not bound to a session")
+
+        __str__ = __eq__ = __ne__ = __hash__ = _fail
+
+        def __getattr__(self, name):
+            raise exc("lazy load of %r failed" % name)
+
+    return Boom()
+
+
+def attr_keys(policy):
+    """attribute names the policy's resource targets mention (where a raising attribute value is looked at)."""
+    keys, todo = [], [policy]
+    while todo:
+        p = todo.pop()
+        todo.extend(x for x in (p.get("policies") or []) if isinstance(x, dict))
+        for r in p.get("rules") or []:
+            rd = r.get("resource") or {}
+            a = rd.get("attrs") or rd.get("attributes") or {}
+            keys.extend(k for k in (a if isinstance(a, dict) else {}) if k not in keys)
+    return keys or ["k"]
+
+
+def failing_request(shape, exc_name, r, policy):
+    """(subject kwargs, resource kwargs, context attrs) of a sibling of resource r with ONE failing value."""
+    b = _boom(exc_name)
+    sub = {"id": "u"}
+    res = {"type": r["type"], "id": r["id"], "attrs": dict(r["attrs"])}
+    ctx = {}
+    if shape == "type":            # str(resource.type) fails
+        res["type"] = b
+    elif shape == "id":            # comparing / printing resource.id fails
+        res["id"] = b
+    elif shape == "attr":          # a resource attribute named by a rule target fails when compared / printed
+        res["attrs"].update({k: b for k in attr_keys(policy)})
+    elif shape == "lazy":          # conditions walking {"attr": "a.b.c"} into request objects hit a field that fails
+        res["attrs"]["owner"] = b
+        sub["attrs"] = {"team": b}
+        ctx = {"session": b}
+    elif shape == "unhashable":    # plain values: membership test of an unhashable value against a set
+        ctx = {"tag": {"name": "a"}, "tags": frozenset(["a", "b"])}
+    elif shape == "role":          # a role entry that fails when compared
+        sub["roles"] = [b]
+    return sub, res, ctx
+
+
+class _Flaky:
+    """role resolver + obligation checker + relationship checker + metrics sink + decision log sink that are neutral
+    while `bad` is False and raise while it is True."""
+
+    def __init__(self):
+        from rbacx.core.obligations import BasicObligationChecker
+
+        self.bad = False
+        self._basic = BasicObligationChecker()
+        outer = self
+
+        class Rel:
+            def check(self, subject, relation, resource, *, context=None):
+                outer.trip("relationship checker")
+                return False
+
+        class Obl:
+            def check(self, result, context):
+                outer.trip("obligation checker")
+                return outer._basic.check(result, context)
+
+        self.rel, self.obl = Rel(), Obl()
+
+    def trip(self, who):
+        if self.bad:
+            raise ConnectionError(who + " unavailable")
+
+    def expand(self, roles):
+        self.trip("role resolver")
+        return list(roles or [])
+
+    def inc(self, name, labels=None):
+        self.trip("metrics")
+
+    def log(self, payload):
+        self.trip("log sink")
+
+
+def walk_pool():
+    """rules whose conditions walk attribute paths into request objects / test membership / ask the relationship
+    checker — the places where a legitimate request value can make rule evaluation raise."""
+    conds = [{"==": [{"attr": "resource.attrs.owner.team"}, {"attr": "subject.attrs.team"}]},
+             {"!=": [{"attr": "context.session.user.id"}, "x"]},
+             {"or": [{"==": [{"attr": "context.tag"}, None]}, {"in": [{"attr": "context.tag"}, {"attr": "context.tags"}]}]},
+             {"not": {"hasAny": [{"attr": "subject.roles"}, ["banned"]]}},
+             {"or": [{"rel": "viewer"}, {"==": [{"attr": "resource.attrs.owner.id"}, None]}]}]
+    ress = [{"type": "doc", "id": "1"}, {"type": "doc", "attrs": {"k": 1}}, {"type": "doc"}, {"type": ["img", "doc"]},
+            {"type": "*"}, {}]
+    pool, i = [], 0
+    for cnd in conds:
+        for rd in ress:
+            for e in ("permit", "deny"):
+                i += 1
+                pool.append({"id": "w%d" % i, "effect": e, "actions": ["read"] if i % 3 else ["*"], "resource": rd,
+                             "condition": cnd})
+    return pool
+
+
 def gen_cases(chk):
     rng = chk.rng
     pool = rule_pool()
@@ -147,6 +269,14 @@ def gen_cases(chk):
                 continue
             set_cases.append({"fam": "set", "policy": ps, "resource": res, "strict": bool(k % 2)})
     out = list(set_cases)
+    # rules whose conditions walk into request objects / test membership / ask the relationship checker (walk_pool);
+    # drawn last, so that the families above are what they were for a given seed
+    wpool = walk_pool()
+    for _ in range(60 if chk.tier == "quick" else 900):
+        rs = [rng.choice(wpool) for _ in range(rng.choice([2, 3, 4]))]
+        if rng.random() < 0.3:
+            rs.insert(rng.randrange(len(rs) + 1), rng.choice(pool))
+        cases.append({"fam": "walk", "policy": {"algorithm": rng.choice(polgen.ALGOS), "rules": rs}})
     for c in cases:
         # rules must be distinct objects with distinct ids
         pol = {"algorithm": c["policy"]["algorithm"],
@@ -156,6 +286,17 @@ def gen_cases(chk):
                 continue
             for strict in (False, True):
                 out.append({"fam": c["fam"], "policy": pol, "resource": res, "strict": strict})
+    # the failing past of the history stage: which failing requests (shape, exception) the engine has answered before
+    # the judged one; rotated over the cases (quick: one shape on a pseudo-random half of the cases, every walk case;
+    # thorough: two shapes on every case), a quarter of them also on a Guard whose collaborators (role resolver,
+    # obligation / relationship checker, metrics, log sink) fail during that phase
+    import zlib
+    for i, c in enumerate(out):
+        h = zlib.crc32(b"past%d" % i)
+        shapes = PAST_SHAPES if c["fam"] == "walk" else PAST_SHAPES[:3]
+        n = 2 if chk.tier != "quick" else 1 if (h % 2 == 0 or c["fam"] == "walk") else 0
+        c["past"] = [[shapes[(i + j) % len(shapes)], PAST_EXC[(i // 3 + j) % len(PAST_EXC)]] for j in range(n)]
+        c["past_collab"] = (h >> 1) % 4 == 0
     return out
 
 
@@ -206,7 +347,7 @@ def _run_impl(cases):
                 ref, sel = ["Raise", type(e).__name__], []
             # history: the same request on a Guard / compiled function that has already answered sibling requests
             # (every resource of REQS, and this resource with other attributes / another id) must be answered alike
-            hist = None
+            hist, pastinfo = None, []
             try:
                 g2 = Guard(c["policy"], strict_types=c["strict"])
                 fn2 = compile_policy(c["policy"])
@@ -227,6 +368,12 @@ def _run_impl(cases):
                          "obligations": raw3.get("obligations"), "reason": raw3.get("reason")}
                 if eng3 != eng or comp3 != comp:
                     hist = {"engine_after_history": eng3, "compiled_after_history": comp3}
+                # ... and after requests whose evaluation FAILS (a request value that raises when looked at: in the
+                # compiled function, in the interpreter, to the caller - none of that is judged): the request judged
+                # above must afterwards be answered as before, by the Guard, by the compiled function, and by a Guard
+                # whose collaborators failed as well
+                if hist is None:
+                    hist = await failing_past(g2, fn2, c, r, env, eng, comp, pastinfo)
                 # ... and on a Guard that was created with another policy and then given this one by set_policy();
                 # every 3rd case with policies that json.dumps cannot serialise (a datetime literal in a rule that
                 # never matches), as Python-built policies may be
@@ -267,10 +414,99 @@ def _run_impl(cases):
                     meta.append({"decision": d2.effect, "rule_id": d2.rule_id, "obligations": d2.obligations})
                 except Exception as e:  # noqa: BLE001
                     meta.append(["Raise", type(e).__name__])
-            res.append((env, eng, comp, ref, meta, hist))
+            res.append((env, eng, comp, ref, meta, hist, pastinfo))
 
     asyncio.run(go())
     return res
+
+
+def default_past(c):
+    """replayed / corpus cases without a recorded past: every shape."""
+    return [[sh, PAST_EXC[i % len(PAST_EXC)]] for i, sh in enumerate(PAST_SHAPES)]
+
+
+async def failing_past(g2, fn2, c, r, env, eng, comp, info):
+    """None, or what the engine / compiled function answered for request r after a past of failing requests."""
+    import logging
+
+    from rbacx.core.engine import Guard
+    from rbacx.core.model import Action, Context, Resource, Subject
+
+    async def ask(g, sub, res, ctx):
+        d = await g.evaluate_async(Subject(**sub), Action("read"), Resource(**res), Context(ctx))
+        return {"decision": d.effect, "rule_id": d.rule_id, "obligations": d.obligations, "reason": d.reason}
+
+    async def judged(g):
+        try:
+            return await ask(g, {"id": "u"}, {"type": r["type"], "id": r["id"], "attrs": dict(r["attrs"])}, {})
+        except Exception as e:  # noqa: BLE001
+            return ["Raise", type(e).__name__]
+
+    def differs(a, b):
+        """as judgement (b): decision, reported rule, obligations; the reason text only when a rule is reported."""
+        if not (isinstance(a, dict) and isinstance(b, dict)):
+            return a != b
+        return proj(a) != proj(b) or (b["rule_id"] is not None and a["reason"] != b["reason"])
+
+    past = c["past"] if "past" in c else default_past(c)
+    collab = c.get("past_collab", True)
+    if not past:
+        return None
+    prev = logging.root.manager.disable
+    logging.disable(logging.CRITICAL)      # the engine logs a traceback per failing request
+    try:
+        g5 = fl = None
+        if collab:
+            fl = _Flaky()
+            g5 = Guard(c["policy"], strict_types=c["strict"], role_resolver=fl, obligation_checker=fl.obl,
+                       relationship_checker=fl.rel, metrics=fl, logger_sink=fl)
+            first = await judged(g5)
+            if differs(first, eng):
+                return {"engine_with_neutral_collaborators": first}
+        outcomes = []
+        for k, (shape, exc_name) in enumerate(past):
+            sub, res, ctx = failing_request(shape, exc_name, r, c["policy"])
+            for g in (g2, g5):
+                if g is None:
+                    continue
+                if g is g5:
+                    fl.bad = True
+                try:
+                    await ask(g, sub, res, ctx)
+                    outcomes.append("answered")
+                except Exception as e:  # noqa: BLE001
+                    outcomes.append(type(e).__name__)
+                info.append("%s:%s:%s" % ("collab" if g is g5 else "plain", shape,
+                                          "answered" if outcomes[-1] == "answered" else "raised"))
+                if g is g5:    # ... and the judged request itself while the collaborators fail (answer not judged)
+                    await judged(g5)
+                    fl.bad = False
+            try:
+                fn2(polgen.env_of_req({"subject": {"roles": [], **sub}, "action": "read", "resource": res, "context": ctx},
+                                      strict=c["strict"]))
+            except Exception:  # noqa: BLE001
+                pass
+            after = await judged(g2)
+            try:
+                raw = fn2(env)
+                comp_after = {"decision": raw["decision"], "rule_id": raw.get("last_rule_id") or raw.get("rule_id"),
+                              "obligations": raw.get("obligations"), "reason": raw.get("reason")}
+            except Exception as e:  # noqa: BLE001
+                comp_after = ["Raise", type(e).__name__]
+            bad = {}
+            if differs(after, eng):
+                bad["engine_after_failing_requests"] = after
+            if differs(comp_after, comp):
+                bad["compiled_after_failing_requests"] = comp_after
+            if g5 is not None:
+                after5 = await judged(g5)
+                if differs(after5, eng):
+                    bad["engine_after_failing_requests_and_failing_collaborators"] = after5
+            if bad:
+                return {**bad, "failing_past": [list(x) for x in past[:k + 1]], "failing_requests_ended": outcomes}
+        return None
+    finally:
+        logging.disable(prev)
 
 
 def proj(x):
@@ -281,8 +517,10 @@ def check_cases(chk, cases, replay=False):
     impl = run_impl(cases)
     lines = [lib.model_call("compiler.decide", c["policy"], env, None) for c, (env, *_r) in zip(cases, impl)]
     outs = [lib.dec(x) for x in lib.run_model(RUNNER, lines)]
-    for c, (env, eng, comp, ref, meta, hist), m in zip(cases, impl, outs):
+    for c, (env, eng, comp, ref, meta, hist, pastinfo), m in zip(cases, impl, outs):
         chk.count("fam:" + c["fam"])
+        for x in pastinfo:
+            chk.count("failing-past:" + x)
         if m == ["Ood"]:
             chk.count("ood")
             chk.mark(("ood", repr(c)), False)
@@ -296,6 +534,13 @@ def check_cases(chk, cases, replay=False):
         if proj(eng) != proj(ref) or (isinstance(ref, dict) and ref["rule_id"] is not None and eng["reason"] != ref["reason"]):
             chk.violation("engine decision differs from the reference evaluation of the most specific matching tier",
                           c, impl={"engine": eng, "reference": ref}, model=m)
+            continue
+        if hist and "failing_past" in hist:
+            chk.violation("the engine / compiled function answers this request differently after it has answered requests "
+                          "whose evaluation failed (a request value that raises when looked at; failing collaborators): "
+                          "its decision no longer equals the reference evaluation of the most specific matching tier for "
+                          "every request", c,
+                          impl={"fresh_engine": eng, "fresh_compiled": comp, **hist, "reference": ref}, model=m)
             continue
         if hist:
             chk.violation("the engine / compiled function answers this request differently after it has answered sibling "
@@ -332,7 +577,12 @@ def run(chk):
                 "lists x id x attrs/attributes x effect x condition): every single rule, seeded random pairs and 3-5 "
                 "rule policies x 3 algorithms x 6 requests (type doc/img/None/'*'/int) x lax/strict; per case: engine vs "
                 "reference on the tier-restricted policy, compiled function vs model, and insertion of non-matching "
-                "rules at every position. non-trivial = the reference reports a deciding rule; distinct = distinct "
+                "rules at every position; history: the same request after 10 sibling requests, after set_policy on a "
+                "Guard created with another policy, and after requests whose evaluation fails (a raising object as "
+                "resource type / id / attribute, walked into by a condition, as a role; an unhashable member; a quarter "
+                "of them also failing role resolver / obligation / relationship checker / metrics / log sink) - counts "
+                "under failing-past:*; family walk: rules whose conditions walk attribute paths / test membership / "
+                "ask the relationship checker. non-trivial = the reference reports a deciding rule; distinct = distinct "
                 "(policy, request, mode)" % len(rule_pool()))
     cases = corpus_cases() + gen_cases(chk)
     check_cases(chk, cases)
